@@ -23,7 +23,9 @@ recorded step is `ReplaceStep(p, p, slice)` (relational); the guard parts with a
 `fits_trivially`, `pass1` = the first pass of `drop_point` re-run on the real `can_replace`, `canJoin` = the real
 `can_join` at the join point, which must be `True`; `valid` = `type.valid_content(node.content)` of `changeTypeGuard`,
 evaluated wherever the real `can_change_type` approves a non-leaf node: guard ⇒ `set_node_markup` succeeds with the
-expected `ReplaceAroundStep`).  A marked copy of the inserted node and an aimed schema
+expected `ReplaceAroundStep`).  At a top-level insert point whose parent does not allow the node's marks
+(`insertPoint_insert_marked_top`, `top` = `topBoundary` compared exactly) the real plan must be the insertion of the node
+with those marks dropped, and it must succeed.  A marked copy of the inserted node and an aimed schema
 (`insert-inside-text`, content `image? text* image`) make the guards bite.
 Search: approve ⇒ perform ⇒ `check()` ∧ leaf/text sequence equal; helpers never die with an internal
 error and return in-range results; for random schemas only "a performed edit that returns is valid
@@ -184,10 +186,15 @@ def run(ctx):
                            "answered by the second pass" if op == "insguard drop" and out.get("pass1") != {"ok": replay.get("point")} else
                            "insideTextGuard fails" if out.get("inside") is False else "other")
                     ctx.count(f"{op}: guards=False because {why}, edit {'succeeded' if exp['good'] else 'failed'}")
+                if op == "insguard insert" and out.get("top") is True and out.get("marks") is False and out.get("ts") is True:
+                    # `insertPoint_insert_marked_top`: the Fitter's plan is the insertion of the stripped node, and it succeeds
+                    ctx.count(f"insguard insert: top-level point, marks not allowed: stripped insertion {'planned' if exp['fit'] else 'NOT planned'}")
+                    if not (exp["good"] and exp["fit"]):
+                        ctx.mismatch(op + " marked_top", replay, "the Fitter plans ReplaceStep(p, p, [stripped node]) and it succeeds", f"real edit: {exp}")
                 if "boundary" in exp:
                     ctx.count(f"{op}: guards={g}, " + ("at a child boundary" if exp["boundary"] else "inside a text child")
                               + f", edit {'succeeded' if exp['good'] else 'failed'}")
-                for key in ("boundary", "inside", "marks", "trivial", "pass1", "canJoin", "valid", "stripped", "fit"):
+                for key in ("boundary", "inside", "marks", "trivial", "pass1", "canJoin", "valid", "stripped", "fit", "top"):
                     if key in exp and exp[key] is not None and out.get(key) != exp[key]:
                         ctx.mismatch(op + " " + key, replay, exp[key], out.get(key))
                 if op == "insguard join" and exp.get("canJoin") != {"ok": True}:
@@ -261,7 +268,8 @@ def run(ctx):
         metas.append(("insguard insert", dict(replay, point=ip, node=node.to_json(), real=str(val)[:120] if sta != "ok" else "ok"),
                       {"good": good, "exact": exact, "boundary": rp.text_offset == 0, "inside": inside_guard(d, ip, [node]),
                        "marks": bool(rp.parent.type.allows_marks(node.marks)), "trivial": bool(ft) if stf == "ok" else None,
-                       "stripped": info.node(stripped), "fit": fit}))
+                       "stripped": info.node(stripped), "fit": fit,
+                       "top": rp.depth == 0 and rp.text_offset == 0 and not d.is_textblock}))
 
     def drop_pass1(d, pos, sl):
         """the first pass of drop_point, re-run on the real can_replace"""
